@@ -345,7 +345,11 @@ def c05(case: Case):
                     finding = "property_tuple_as_union"
                 if what == "attribute" and ann.kind == "callable" and sty is None:
                     finding = "callable_attribute_untyped"
-                if what == "attribute" and ann.kind == "list" and any(a.kind not in BASE_SIMPLE for a in ann.args):
+                if what == "attribute" and ann.kind == "list" and (any(a.kind not in BASE_SIMPLE for a in ann.args)
+                                                                   or any(a.kind == "ref" for a in ann.args)):
+                    # the element types of an annotated list attribute come from the unanalysed annotation and are resolved by
+                    # bare name: composite elements lose their structure, a class that is declared further down (or imported
+                    # under another name) is not found and becomes `unknown`
                     finding = "class_attribute_list_items_by_name"
                 out.append({"what": f"type of {what} of {t['owner']}.{t['name']}: annotation {ann.src()} rendered as "
                                     f"{sdsparse.type_str(sty)!r}", "decl": f"{t['owner']}.{t['name']}", "finding": finding})
